@@ -2,6 +2,7 @@
 //  mode c20: command line beats config file beats default; legacy aliases; compatibility options
 //  mode c13: parse -> save(.cfg) -> fresh parse(--config .cfg) must give the same value for every getter
 #include "common.hpp"
+#include <sys/stat.h>
 #include "IO/ProgramOptions.hpp"
 #include <fstream>
 #include <functional>
@@ -95,6 +96,10 @@ static Val gen_value(Rng& r, const Opt& o) {
                  v.token = b ? T[r.range(0, 3)] : F[r.range(0, 3)]; v.repr = ri(b); break; }
     case STR: { static const char* names[] = {"a.dat", "some/dir/file.txt", "x_y-z.h5", "f.hdf5", "t.txt", "data.set.v2", "in put/Z file.dat", "a b.txt"}; v.token = names[r.range(0, 7)];
                 if (o.domain == 21) { static const char* outs[] = {"res.h5", "dir/out.hdf5", "plain.png", "o.h5", "my run.h5", "dir with blank/o.hdf5"}; v.token = outs[r.range(0, 5)]; }
+                // scale: now and then a path far longer than any fixed-size buffer one would think of (300 / 1100 / 5000 characters)
+                if (r.chance(0.03)) { static const size_t L[] = {300, 1100, 5000}; size_t want = L[r.range(0, 2)]; std::string lp;
+                    while (lp.size() < want) { lp += "d" + std::to_string(lp.size()) + std::string((size_t)r.range(1, 40), (char)('a' + r.range(0, 25))); lp += (r.chance(0.3) ? "/" : "_"); }
+                    v.token = lp + ((o.domain == 21) ? "o.h5" : "f.dat"); M.ev("values.very_long_path"); }
                 v.repr = v.token; break; }
     case U32: { long long x;
         switch (o.domain) { case 19: x = r.range(0, 5000); break; case 22: x = r.range(1, 100000); break; case 26: x = r.range(0, 3); break;
@@ -102,7 +107,9 @@ static Val gen_value(Rng& r, const Opt& o) {
         v.token = v.repr = ri(x); break; }
     case I32: { long long x = (o.domain == 25) ? r.range(-5, 1000) : r.range(-1, 3); v.token = v.repr = ri(x); break; }
     case I64: { long long x = r.chance(0.2) ? r.range(-3000000000ll, 3000000000ll) : r.range(-20, 20); v.token = v.repr = ri(x); break; }
-    case VEC: { int k = (int)r.range(1, 5); std::vector<float> f; for (int i = 0; i < k; i++) { float c = r.chance(0.2) ? 0.0f : (float)r.logu(1e-6, 1e-1); f.push_back(c); v.tokens.push_back(fullf(c)); }
+    case VEC: { int k = (int)r.range(1, 5);
+                if (r.chance(0.04)) { static const int K[] = {70, 300, 1000}; k = K[r.range(0, 2)]; M.ev("values.bunch_current_lists_beyond_64_entries"); }    /* scale: a long fill pattern */
+                std::vector<float> f; for (int i = 0; i < k; i++) { float c = r.chance(0.2) ? 0.0f : (float)r.logu(1e-6, 1e-1); f.push_back(c); v.tokens.push_back(fullf(c)); }
                 v.repr = rvec(f); break; }
     default: {
         double x;
@@ -173,6 +180,12 @@ static void build_inputs(Rng& r, const std::vector<Opt>& T, std::vector<Placemen
         if (r.chance(0.3)) cfgtext += "InitialDistParam=" + ri(r.range(0, 9)) + "\n";
         if (r.chance(0.3)) cfgtext = "# a comment line\n\n" + cfgtext;
     }
+    // scale: now and then a file with thousands of lines and a line of ten thousand characters that carry no assignment
+    if (r.chance(0.03)) { std::string pad; int nl = (int)r.range(3000, 9000); for (int i = 0; i < nl; i++) pad += (i % 3 == 0) ? "\n" : "# filler line " + std::to_string(i) + "\n";
+        static const size_t LL[] = {253, 254, 255, 1000, 10000, 70000};      // (+2 for "# ": lines of 255, 256, 257 ... characters)
+        const std::string longline = "# " + std::string(LL[r.range(0, 5)], 'x') + "\n";
+        cfgtext = r.chance(0.5) ? longline + pad + cfgtext : cfgtext + pad + longline;     /* the long line is the file's first or its last */
+        M.ev("config_files_with_thousands_of_lines"); }
     // the multitoken option goes last on the command line
     args.insert(args.end(), vecargs.begin(), vecargs.end());
 }
@@ -232,6 +245,11 @@ static void mode_c13() {
         build_inputs(r, T, P, args, cfg, c % 4 == 0, c % 5 == 0, r.uni(0.05, 0.7));
         // alpha0 xor synchrotron frequency is the normal use; keep both in some cases
         std::string cfgname = "c13_" + std::to_string(c) + ".cfg", saved = "c13_" + std::to_string(c) + ".saved.cfg";
+        // a quarter of the files are saved into a directory other than the working directory (results written to results/scan 1/run.h5):
+        // relative file names inside keep their meaning relative to the working directory, where the program resolves them
+        if (c % 4 == 1) { static const char* dirs[] = {"results", "results/scan 1", "a/b/c"}; std::string d = dirs[(c / 4) % 3];
+            std::string acc; for (char ch : d + "/") { if (ch == '/') mkdir(acc.c_str(), 0777); acc += ch; }
+            saved = d + "/" + saved; M.ev("cfg_files_saved_into_another_directory"); }
         // a third of the files end without a final newline (hand-edited files often do): the last line counts like any other
         if (c % 3 == 2 && !cfg.empty() && cfg.back() == '\n') { cfg.pop_back(); M.ev("config_files_without_final_newline"); }
         { std::ofstream f(cfgname); f << cfg; }
